@@ -124,7 +124,7 @@ func RunGME(p *GMEProg) string {
 	}
 	var lastMu sync.Mutex
 	last := map[string][]string{}
-	mk := func(r uint64) *grpcgcp.GCPMultiEndpointOptions {
+	mkOK := func(r uint64, faults bool) *grpcgcp.GCPMultiEndpointOptions {
 		mes := map[string]*multiendpoint.MultiEndpointOptions{}
 		names := []string{"d", "r", "w"}
 		n := 1 + int(r%3)
@@ -134,11 +134,16 @@ func RunGME(p *GMEProg) string {
 			for j := 0; j < k; j++ {
 				l = append(l, eps[(int(r>>(3*uint(i+2)))+j)%len(eps)])
 			}
+			if faults && (r>>41)%4 == 0 && i == int(r>>43)%n {
+				// an endpoint whose dial fails: the update is refused after some pools may have been dialed already
+				l = append(l, fmt.Sprintf("unknown-endpoint-%d", (r>>45)%3))
+			}
 			mes[names[i]] = &multiendpoint.MultiEndpointOptions{Endpoints: l}
 		}
 		return &grpcgcp.GCPMultiEndpointOptions{GRPCgcpConfig: &pb.ApiConfig{ChannelPool: &pb.ChannelPoolConfig{MinSize: 1, MaxSize: 2}}, MultiEndpoints: mes, Default: "d", DialFunc: gmesim.Dial}
 	}
-	gme, err := grpcgcp.NewGCPMultiEndpoint(mk(p.Seed))
+	mk := func(r uint64) *grpcgcp.GCPMultiEndpointOptions { return mkOK(r, true) }
+	gme, err := grpcgcp.NewGCPMultiEndpoint(mkOK(p.Seed, false))
 	if err != nil {
 		return "C15|" + err.Error()
 	}
@@ -230,7 +235,7 @@ func RunGME(p *GMEProg) string {
 		final := last
 		lastMu.Unlock()
 		if len(final) == 0 {
-			o := mk(p.Seed)
+			o := mkOK(p.Seed, false)
 			for n, meo := range o.MultiEndpoints {
 				final[n] = meo.Endpoints
 			}
